@@ -8,7 +8,7 @@ use vmodel::malformed;
 
 fn report(kind: &str, derive: &str, src: &str, detail: &str) -> ! {
     // strict mode: any oracle failure is a crash with a self-describing message
-    eprintln!("C20-VIOLATION kind={} derive={}\n--- source ---\n{}\n--- detail ---\n{}", kind, derive, src, detail);
+    eprintln!("C20-VIOLATION {}", vinproc::violation_json(kind, derive, src, detail));
     std::process::abort();
 }
 
